@@ -14,6 +14,9 @@ EXPLANATION = (
     "an occurs check; U4 the recursive-type detector traverses type arguments; U5 every range handed to ariadne Label::new / "
     "Report::build is a Span::character_range."
 )
+EXPLANATION += (
+    ' U3b the occurs check descends into every Type variant that contains types. U6 a token span leaving the lexer ends on a position computed from lengths (len differences, len_utf8); a constant number of bytes added to a position is a reviewed site (none on this tree).'
+)
 ASSUMPTIONS = [
     "std's documented panic conditions for str slicing",
     "ariadne expects character offsets (as configured by the crate)",
